@@ -40,6 +40,19 @@ CLAIMED = {
             "(A2_combine_*, C4_fastcorner9*) were mistranslated by D1 and are repaired by a fix: commit (Example); the value theorem for pure "
             "expressions of any depth (C01_expressions_partial). Floats and opaque plugin macros have no prescribed value (structural comparison only).",
             "model + theorems + refutation by a shipped instruction; K2 and differential oracle over the corpus"),
+    "C11": ("Partial. wf_body (declared exactly once and before use, valid C identifiers, SEQN arity, final return) is a Coq function whose consequences for "
+            "the run of a body are proved (sem/Own.v: nothing is used before its declaration, one allocation per owned variable); the harness evaluates it in Coq on "
+            "EVERY real emitted body (generated programs + corpus sample, both layouts; thorough: whole corpus), checks needs_hi/needs_pkt against the variables the "
+            "body mentions, one getter name per part and uniqueness of getter names. The emission algorithm is not modelled at text level: the verdict is per output "
+            "(translation validation by a proved checker), known symptom classes D8, D18, D24.", "proved checker evaluated on every real output; symptom-class known findings"),
+    "C12": ("Partial. `linear` (one raw use per pure variable, every other use under DUP; effects used exactly once; borrowed parameters at most once; nothing unused) is "
+            "given an operational meaning and proved SOUND and COMPLETE for all bodies (sem/Own.v: no double free, no leak, run without fault, consume after alloc); the "
+            "harness evaluates it in Coq on every real emitted body in both layouts. Per-output verdict; known symptom classes D23 (unused register read), D16 "
+            "(statement of a statement-expression rendered twice).", "proved-sound-and-complete checker evaluated on every real output"),
+    "C16": ("Partial. Both layouts are compiled for every generated program and corpus instruction; accepted/rejected status, attribute lists and canon(denote body) "
+            "are compared in Coq. Theorems: the denotation ignores DUP; two effects with the same canonical form have the same terminating runs from EVERY state "
+            "(proofs/SeqLaws.v, canon_preserves_runs) - so equality of trees settles execution equality without sampling. Not a theorem over the emission algorithm "
+            "(per-output). Known finding D24 (literal division accepted in one layout only).", "tree equality in Coq per output + semantic canonical-form theorem"),
     "C13": ("Full for the modelled bookkeeping: attrs_spec (proofs/MetaSpec.v) proves for EVERY behaviour that each reported flag holds exactly when the "
             "property's structural condition holds (WRITE_Pn exactly for the numbered predicates assigned, NONE iff none), over the token table, call sites, "
             "get_meta and reset sets REGENERATED from HexagonExtensions.py / RZILTransformer.py / Compiler.py; attrs_history proves independence of every "
